@@ -726,6 +726,9 @@ class Tag:
     def __exit__(self, exc_type: Any, exc_value: Any, traceback: Any) -> None:
         # If we got here, then self.prev_displayhook must be not None.
         sys.displayhook = cast(Callable[[object], None], self.prev_displayhook)
+        # The block is not active any more: the tag may be entered again, and it is equal
+        # again to an identical tag that was never used as a context manager.
+        self.prev_displayhook = None
         sys.displayhook(self)
 
     def insert(self, index: SupportsIndex, x: TagChild) -> None:
